@@ -44,8 +44,9 @@ Enabled(b, op) ==
     [] op.op = "ladd" -> b.lst[op.l].st # "gone" /\ op.f \notin b.lst[op.l].filters
     [] op.op = "lrem" -> b.lst[op.l].st # "gone" /\ op.f \in b.lst[op.l].filters
     [] op.op = "lclear" -> b.lst[op.l].st # "gone" /\ b.lst[op.l].filters # {}
-    [] op.op = "lstart" -> b.lst[op.l].st = "idle"
-    [] op.op = "lstop" -> b.lst[op.l].st = "started"
+    \* (starting a started listener and stopping an idle one are refused and change nothing)
+    [] op.op = "lstart" -> b.lst[op.l].st # "gone"
+    [] op.op = "lstop" -> b.lst[op.l].st # "gone"
     [] op.op = "ldestroy" -> b.lst[op.l].st # "gone"
     [] OTHER -> FALSE
 
@@ -65,6 +66,8 @@ Do(b0, op) ==
     [] op.op = "ladd" -> Quiet([b EXCEPT !.lst[op.l].filters = @ \cup {op.f}])
     [] op.op = "lrem" -> Quiet([b EXCEPT !.lst[op.l].filters = @ \ {op.f}])
     [] op.op = "lclear" -> Quiet([b EXCEPT !.lst[op.l].filters = {}])
+    [] op.op = "lstart" /\ b.lst[op.l].st = "started" -> [Quiet(b) EXCEPT !.res = "refused"]
+    [] op.op = "lstop" /\ b.lst[op.l].st = "idle" -> [Quiet(b) EXCEPT !.res = "refused"]
     [] op.op = "lstart" ->
          LET b1 == [b EXCEPT !.lst[op.l].st = "started", !.lst[op.l].scope = op.scope]
              q == Quiet(b1) IN
